@@ -184,6 +184,10 @@ SRC_FOLLOW = {
     "mdonly": ("mdonly", [("tick",)] * 3 + [("fin",), ("tick",)]),
     "nak": ("valid", [("tick",)] * 3 + [("nak", ((0, 0), (0, 2)))] + [("tick",)] * 4 + [("ackeof",), ("fin",), ("tick",)]),
     "cancel": ("valid", [("tick",)] * 2 + [("cancel",)] + [("tick",), ("ackeof",), ("fin",), ("tick",)]),
+    # request-level overrides: the follow-up runs in the other mode / without closure
+    "unack_noclosure": ("valid/unack/False", [("tick",)] * 6),
+    "unack_closure": ("valid/unack/True", [("tick",)] * 5 + [("fin",), ("tick",)]),
+    "ack": ("valid/ack/False", [("tick",)] * 5 + [("ackeof",), ("fin",), ("tick",), ("tick",)]),
     "silence": ("valid", [("tick",)] * 4 + [("expire",)] * 3 + [("tick",)]),
 }
 
@@ -225,7 +229,13 @@ class HistSrc(SrcWorld):
     def run_script(self, st, ent, variant, script):
         obs_list = []
         peer_save = st.peer
-        o, msgs, ret = ent.call(ent.h.put_request, self.put_req(variant))
+        parts = variant.split("/")
+        req = self.put_req(parts[0])
+        if len(parts) == 3:
+            from spacepackets.cfdp import TransmissionMode
+            req.trans_mode = TransmissionMode.ACKNOWLEDGED if parts[1] == "ack" else TransmissionMode.UNACKNOWLEDGED
+            req.closure_requested = parts[2] == "True"
+        o, msgs, ret = ent.call(ent.h.put_request, req)
         o["ret"] = ret
         obs_list.append(norm(o))
         for e in script:
